@@ -296,6 +296,32 @@ def structural(ctx, rid, key, comp, spec):
                "; ".join(bad))
 
 
+def _lookup_id(t):
+    """`<id>` of a term that is a registry look-up `resolve(reg, <id>)` / `resolve_type(gen, <id>)`, possibly wrapped in error mapping,
+    `?`, the Some payload and `.type_def`; None for anything else"""
+    from .core.norm import _split_top
+    m = None
+    for m in re.finditer(r"(?:PortableRegistry::resolve|resolve_type)\(", t):
+        break
+    if m is None:
+        return None
+    head = t[:m.start()]
+    if not re.fullmatch(r"(?:Result::map_err\(|Option::ok_or\w*\(|ok_or\()*(?:[A-Za-z_][\w]*::)*", head):
+        return None
+    depth, i = 1, m.end()
+    while i < len(t) and depth:
+        depth += t[i] in "([{"
+        depth -= t[i] in ")]}"
+        i += 1
+    if depth:
+        return None
+    args = _split_top(t[m.end():i - 1], ",")
+    tail = t[i:]
+    if len(args) != 2 or not re.fullmatch(r"(?:,\|\d\|\{anyhow!\(\)\}\)|,[^()]*\)|\)|@v1::Some\.0|\?|\.type_def)*", tail):
+        return None
+    return args[1]
+
+
 def type_expression(ctx, rid, key, comp, spec):
     bad = []
     n_calls = 0
@@ -314,11 +340,11 @@ def type_expression(ctx, rid, key, comp, spec):
                 i = list(spec["ty"].values())[0]
                 t = show(ats[i])
                 # the &Type / &TypeDef argument must be `resolve(<id>)` of an allowed id
-                mm = re.search(r"(?:PortableRegistry::resolve|resolve_type)\((?:[^,]+),(.+?)\)\)?(?:@v1::Some\.0)?\??(?:\.type_def)?$", t)
-                if not mm:
+                idt = _lookup_id(t)
+                if idt is None:
                     bad.append("%s recurses on `%s`, which is not a registry look-up of a child id" % (cs, t[:120]))
                     continue
-                t = mm.group(1)
+                t = idt
             if ".fields" in t and "@TypeDef::Tuple" not in t or ".variants" in t:
                 bad.append("%s recurses into fields/variants (`%s`): recursion would follow the type *graph*, which may be cyclic" % (cs, t[:120]))
             elif not ID_LEAF.search(t):
